@@ -1,7 +1,9 @@
 package props
 
 import (
+	"bytes"
 	"fmt"
+	"github.com/Syuparn/pangaea/runscript"
 	"math/rand"
 	"strings"
 
@@ -91,6 +93,7 @@ type pexpr struct {
 	args   []*pexpr // chain/call arguments (nil: no parentheses for chain)
 	carg   *pexpr   // chain argument `$(x)`
 	hasArg bool
+	multi  bool // chain written on the next line with a leading `|`
 }
 
 // level of the construct at the root of e.
@@ -238,7 +241,11 @@ func (e *pexpr) printBare(full bool) string {
 		}
 		return op + x
 	case kChain:
-		s := e.kids[0].printTarget(full, lvChain) + e.text
+		s := e.kids[0].printTarget(full, lvChain)
+		if e.multi {
+			s += "\n  |"
+		}
+		s += e.text
 		if e.carg != nil {
 			s += "(" + e.carg.print(false, top) + ")"
 		}
@@ -342,6 +349,14 @@ func c02ctors() []c02ctor {
 		cs = append(cs, c02ctor{"chain " + c, 1, func(k []*pexpr) *pexpr { return &pexpr{k: kChain, text: c, prop: "p", kids: k} }})
 		cs = append(cs, c02ctor{"chain-args " + c, 2, func(k []*pexpr) *pexpr {
 			return &pexpr{k: kChain, text: c, prop: "q", kids: k[:1], args: []*pexpr{k[1]}, hasArg: true}
+		}})
+	}
+	// the same chains continued on the next line with `|`: the spelling does not change what the chain binds to
+	for _, c := range []string{".", "@", "$", "&.", "~@", "=$"} {
+		c := c
+		cs = append(cs, c02ctor{"chain-multiline " + c, 1, func(k []*pexpr) *pexpr { return &pexpr{k: kChain, text: c, prop: "p", kids: k, multi: true} }})
+		cs = append(cs, c02ctor{"chain-args-multiline " + c, 2, func(k []*pexpr) *pexpr {
+			return &pexpr{k: kChain, text: c, prop: "q", kids: k[:1], args: []*pexpr{k[1]}, hasArg: true, multi: true}
 		}})
 	}
 	cs = append(cs, c02ctor{"chain-arg $(x)", 2, func(k []*pexpr) *pexpr {
@@ -481,7 +496,45 @@ func init() {
 	})
 }
 
+// c02oneLiners: expressions over the current stdin line `\` for the -n / -p one-liner entry points; the
+// expression given on the command line groups as it is written: adding the implied outer parentheses
+// changes nothing, and the two templates evaluate the same values.
+var c02oneLiners = []string{`\.I * 2 + 1`, `\ + "!"`, `"big" if \.I > 3 else "small"`, `x := \.I * 2`, `\.I ** 2 - 1`, `10 - \.I * 2`, `\.I > 3 && \.I < 9`,
+	`\.I => y`, `[\.I, 1][0] + 5`, `\.uc`, `\.I - 1 - 1`, `\.I if \.I > 3 else 0 - 1`, `!(\.I > 3)`, `\.I % 2 == 0 || \.I`, `"<" + \ + ">" * 2`, `\.I <=> 3`, `\.I * (2 + 1)`,
+	`\.I.{|n| n + 1} * 3`, `\.I@{|b| b}.len + 1`}
+
 func runC02(w *fw.W) {
+	if w.Take() {
+		w.Begin("one-liner templates", nil)
+		var vs violSet
+		n := 0
+		runOL := func(tmpl, expr string) (string, int) {
+			var out bytes.Buffer
+			code := runscript.RunSource(fmt.Sprintf(tmpl, expr), "<c02>", strings.NewReader("3\n4\n12\n"), &out)
+			return out.String(), code
+		}
+		for _, e := range c02oneLiners {
+			// -p prints what -n with an explicit print prints
+			ref, rc := runOL(runscript.ReadStdinLinesTemplate, "("+e+").p")
+			for _, v := range []struct{ name, tmpl, expr string }{
+				{"-p", runscript.ReadStdinLinesAndWritesTemplate, e},
+				{"-p with outer parentheses", runscript.ReadStdinLinesAndWritesTemplate, "(" + e + ")"},
+				{"-n with outer parentheses and print", runscript.ReadStdinLinesTemplate, "((" + e + ")).p"},
+			} {
+				got, code := runOL(v.tmpl, v.expr)
+				n++
+				if got != ref || code != rc {
+					vs.add("C02|one-liner|"+v.name, fmt.Sprintf("one-liner `%s` with stdin 3/4/12: %s prints %q (exit %d); `(%s).p` under -n prints %q (exit %d)", e, v.name, got, code, e, ref, rc), e)
+				}
+			}
+			if rc != 0 || ref == "" {
+				vs.add("C02|one-liner|reference-does-not-evaluate", fmt.Sprintf("`(%s).p` under -n: exit %d, output %q", e, rc, ref), e)
+			}
+		}
+		r := fw.Result{Verdict: fw.Held, Evals: n, Counters: map[string]int{"one_liner_runs": n}, DKeys: []string{"one-liner"}}
+		vs.finish(&r)
+		w.End(r)
+	}
 	ctors := c02ctors()
 	type item struct {
 		min, full, want, key, counter string
